@@ -373,6 +373,68 @@ SPECIAL = {'dynamic_inst', 'imp_trans_match1', 'imp_trans_match2', 'equiv_match_
            'equiv_trans_match1', 'equiv_trans_match2',
            'universal_gen', 'top_univgen', 'functional_subst', 'sym0_implies_sym1', 'sym1_implies_sym2',
            'sym0_implies_sym2_proof'}
+# index-driven rules of tautology.py (recursive / looping on integer counters: outside the straight-line translator).
+# conjunction_implies_nth has a hand-written Coq model (Lib/NthDef.v, theorems Lib/Nth.v) that is tied here; the other
+# two are checked against their documented conclusion only (their proofs belong to C09's proof layer).
+HAND = {
+    'conjunction_implies_nth': ([('term', 'pat'), ('n', 'int'), ('l', 'int')], ['imp_refl', 'and_l_imp', 'and_r_imp', 'imp_transitivity']),
+    'merge_clauses': ([('term_l', 'pat'), ('len_l', 'int'), ('term_r', 'pat')], ['equiv_refl', 'equiv_sym', 'or_assoc', 'equiv_transitivity', 'or_cong']),
+    'reduce_n_or_duplicates_at_front': ([('n', 'int'), ('terms', 'list')], ['equiv_refl', 'or_idem', 'reduce_or_duplicates_at_front', 'equiv_transitivity']),
+}
+
+
+def un_and(p):
+    if p[0] == 'imp' and p[2] == BOT and p[1][0] == 'imp' and p[1][2][0] == 'imp' and p[1][2][2] == BOT:
+        return p[1][1], p[1][2][1]
+    return None
+
+
+def un_or(p):
+    if p[0] == 'imp' and p[1][0] == 'imp' and p[1][2] == BOT:
+        return p[1][1], p[2]
+    return None
+
+
+def fold_or(ps):
+    return ps[0] if len(ps) == 1 else expand(('or', ps[0], fold_or(ps[1:])))
+
+
+def oracle_hand(name, py):
+    a = py['args']
+    if name == 'conjunction_implies_nth':
+        term, n, l = expand(totuple(a[0]['p'])), int(a[1]['i']), int(a[2]['i'])
+        if not 0 <= n < l:
+            return None
+        conj, t = [], term
+        for _ in range(l - 1):
+            u = un_and(t)
+            if u is None:
+                return None
+            conj.append(u[0])
+            t = u[1]
+        conj.append(t)
+        return ('imp', term, conj[n])
+    if name == 'merge_clauses':
+        tl, k, tr = expand(totuple(a[0]['p'])), int(a[1]['i']), expand(totuple(a[2]['p']))
+        if k < 1:
+            return None
+        ls, t = [], tl
+        for _ in range(k - 1):
+            u = un_or(t)
+            if u is None:
+                return None
+            ls.append(u[0])
+            t = u[1]
+        ls.append(t)
+        return mk_equiv(expand(('or', tl, tr)), fold_or(ls + [tr]))
+    if name == 'reduce_n_or_duplicates_at_front':
+        n, terms = int(a[0]['i']), [expand(totuple(x)) for x in a[1]['l']]
+        if not 0 <= n < len(terms) or any(t != terms[0] for t in terms[:n + 1]):
+            return None
+        return mk_equiv(fold_or(terms), fold_or(terms[n:]))
+    return None
+
+
 INSTANTIATING = {'dynamic_inst', 'imp_trans_match1', 'imp_trans_match2', 'equiv_match_l', 'equiv_match_r',
                  'equiv_trans_match1', 'equiv_trans_match2'}
 DEFINEDNESS = 100        # id of Symbol('⌈_⌉') in the model (Gen/PropLib.index.json `symbols`)
@@ -428,6 +490,9 @@ class Lib:
                            binding=sch['binding'], prem_vars=sch['prem_vars'])
                 self.schemas[m['name']] = sch
         self.with_schema = [m['name'] for m in idx['methods'] if m['name'] in self.schemas]
+        for k_, (hn, (hparams, hcalls)) in enumerate(HAND.items()):
+            self.by_name[hn] = dict(name=hn, cls='Tautology', idx=10000 + k_, spec='hand', schema=None, calls=hcalls, sha=None,
+                                    params=[dict(name=a, type=t, default=None) for a, t in hparams], uses_gen=False)
 
 
 def totuple(x):
@@ -785,7 +850,9 @@ def judge(case, impl, model):
     name = case['py']['call']
     fi, fm = impl.split(), (model or 'MISSING').split()
     agree = False
-    if fi[0] == 'OK' and fm[0] == 'OK':
+    if case.get('ml') is None and 'ml' in case:
+        agree = True          # entry without a Coq model: only the documented conclusion is checked
+    elif fi[0] == 'OK' and fm[0] == 'OK':
         agree = (fi[1] == fm[1] and fi[2] == fm[2] and int(fi[3]) == int(fm[3]) and fm[4] == fm[1]
                  and fm[5] == ('0' if tree_uses_gen(case['py']) else '1')
                  and fi[4] == fi[1] and fi[5] == fi[1] and fi[6] == '1')
@@ -819,6 +886,50 @@ def subcalls(py):
             yield from subcalls(a)
 
 
+def hand_cases(lib, rng, hist, reps):
+    """index-driven rules: every n < l for l = 1..5, conjuncts / disjuncts that are themselves conjunctions, negated
+    implications (= unfolded conjunctions), applications, quantified patterns, metavariables; plus out-of-range counters"""
+    out = []
+
+    def elem(kind=None):
+        k = kind or rng.choice(['and', 'negimp', 'app', 'ex', 'mv', 'any', 'or'])
+        x, y = gen_pat(rng, 1, hist), gen_pat(rng, 1, hist)
+        return {'and': ('and', x, y), 'negimp': ('neg', ('imp', x, ('neg', y))), 'app': ('app', x, y), 'or': ('or', x, y),
+                'ex': ('ex', rng.randrange(3), x), 'mv': mv(rng.randrange(4)), 'any': gen_pat(rng, 2, hist)}[k]
+
+    def nest(op, ps):
+        return ps[0] if len(ps) == 1 else (op, ps[0], nest(op, ps[1:]))
+
+    def add(name, args, tag):
+        py = {'call': name, 'args': args}
+        out.append(dict(py=py, ml=ml_of(py, lib), expect=oracle_of(py, lib), sub=[], origin=f'hand:{name}:{tag}'))
+        hist['method:' + name + ':' + tag.split(',')[0]] = hist.get('method:' + name + ':' + tag.split(',')[0], 0) + 1
+
+    for l in range(1, 6):
+        for n in range(l):
+            for r in range(reps + 1):
+                kinds = ['and', 'negimp'][r % 2] if r < 2 else None       # first two draws: EVERY conjunct is a conjunction
+                ps = [elem(kinds) for _ in range(l)]
+                term = nest('and', ps)
+                if rng.random() < 0.3:
+                    term = expand(term)
+                add('conjunction_implies_nth', [{'p': term}, {'i': n}, {'i': l}], f'l={l},n={n}')
+        # counters that do not fit the term
+        ps = [elem() for _ in range(l)]
+        add('conjunction_implies_nth', [{'p': nest('and', ps)}, {'i': l}, {'i': l}], 'n-out-of-range')
+        add('conjunction_implies_nth', [{'p': nest('and', [mv(0)] * l)}, {'i': l}, {'i': l + 1}], 'l-too-large')
+    for k in range(1, 5):
+        for r in range(reps):
+            ls = [elem(['or', 'and', None][r % 3]) for _ in range(k)]
+            add('merge_clauses', [{'p': nest('or', ls)}, {'i': k}, {'p': elem()}], f'len_l={k}')
+    for n in range(0, 4):
+        for extra in range(0, 3):
+            p0 = elem()
+            terms = [p0] * (n + 1) + [elem() for _ in range(extra)]
+            add('reduce_n_or_duplicates_at_front', [{'i': n}, {'l': terms}], f'n={n}')
+    return out
+
+
 def regenerate():
     try:
         (defs, specs), idx = T.translate(C.PYSRC, os.path.join(C.COQ, 'Lib', 'Extra.v'))
@@ -843,6 +954,10 @@ def setup():
 def ml_of(py, lib):
     """model request for a python call tree (entry points by CURRENT index, defaults made explicit)"""
     m = lib.by_name[py['call']]
+    if m['spec'] == 'hand':
+        if py['call'] == 'conjunction_implies_nth':
+            return f"(N P{hexp(expand(totuple(py['args'][0]['p'])))} {int(py['args'][1]['i'])} {int(py['args'][2]['i'])})"
+        return None          # no Coq model: implementation vs documented conclusion only
     out = []
     for k, p in enumerate(m['params']):
         if k < len(py['args']):
@@ -876,6 +991,8 @@ def conc_of_arg(a, lib):
 def oracle_of(py, lib):
     """documented conclusion of a python call tree (None if some premise is not of the documented shape)"""
     m = lib.by_name[py['call']]
+    if m['spec'] == 'hand':
+        return oracle_hand(py['call'], py)
     if py['call'] in SPECIAL:
         args = []
         for k, p in enumerate(m['params']):
@@ -983,8 +1100,9 @@ def run(tier, seed):
                         R.hist['variant:' + T_] = R.hist.get('variant:' + T_, 0) + 1
                     except (ValueError, KeyError):
                         pass
+        cases += hand_cases(lib, rng, R.hist, 2 if tier == 'quick' else 40)
         impl = run_impl(cases)
-        model = C.run_lines_parallel(mlref, [c['ml'] for c in cases]) if ok else [None] * len(cases)
+        model = C.run_lines_parallel(mlref, [c['ml'] or '(C 99999)' for c in cases]) if ok else [None] * len(cases)
         if ok and len(model) != len(cases):
             model = model + ['MISSING'] * (len(cases) - len(model))
         n_cases = len(cases)
